@@ -268,7 +268,9 @@ pub fn shared_files(reg: &[TypeEntry]) -> Vec<(String, Vec<usize>)> {
     let mut by: BTreeMap<String, Vec<usize>> = BTreeMap::new();
     for (i, e) in reg.iter().enumerate() {
         if let Some(p) = (e.output_path)() {
-            by.entry(p.to_string_lossy().to_string()).or_default().push(i);
+            // two spellings of one path are one file
+            let norm = super::fsutil::norm_rel("", &p.to_string_lossy()).unwrap_or_else(|| p.to_string_lossy().to_string());
+            by.entry(norm).or_default().push(i);
         }
     }
     by.into_iter().filter(|(_, v)| v.len() >= 2).collect()
